@@ -48,7 +48,7 @@ def write_record(
         write_int8(record_buffer, record.attributes)
         write_signed_varlong(
             record_buffer,
-            int(record.timestamp.timestamp() * 1000) - base_timestamp,
+            round(record.timestamp.timestamp() * 1000) - base_timestamp,
         )
         write_signed_varint(record_buffer, record.offset - base_offset)
         write_signed_compact_bytes(record_buffer, record.key)
@@ -120,9 +120,9 @@ def write_new_batch(buffer: IO[bytes], new_batch: NewRecordBatch) -> None:
 
     base_offset = first_record.offset
     last_offset_delta = i32(last_record.offset - base_offset)
-    base_timestamp = i64(int(first_record.timestamp.timestamp() * 1000))
+    base_timestamp = i64(round(first_record.timestamp.timestamp() * 1000))
     max_timestamp = i64(
-        int(1000 * max(record.timestamp for record in new_batch.records).timestamp())
+        round(1000 * max(record.timestamp for record in new_batch.records).timestamp())
     )
 
     with io.BytesIO() as crc_buffer:
